@@ -310,6 +310,111 @@ class Gen:
         return {"family": ("SONE%d" if seek else "ONE%d") % side, "flavour": flavour, "shape": shape, "base": base,
                 "base_side": base_side, "sched": sched, "expect": m.t}
 
+    def case_reuse(self, flavour, shape, side, nops, base_side=None):
+        """REUSE(side): one-sided history in which names vacated by a delete / rmdir / rename in an *earlier* window
+        (i.e. the engine has been quiet since) are taken again - by a create, a mkdir, a file rename or a folder rename,
+        of either type.  Exercises what the engine remembers about paths across quiet points (written-off entries)."""
+        rng = self.rng
+        base_side = side if base_side is None else base_side
+        base, m = self.base_tree(base_side, rng.choice((4, 6, 8)))
+        sched = []
+        vacated, pending, chain = set(), set(), set()
+        reused = 0
+        pfx = "lr"[side]
+
+        def quiet():
+            if not sched or sched[-1] != ["Q"]:
+                sched.append(["Q"])
+            vacated.update(pending)
+            pending.clear()
+            chain.clear()
+
+        def fresh_path():
+            par = rng.choice([""] + [d for d in m.dirs() if d.count("/") < 3])
+            name = self.names.fresh(pfx)
+            return (par + "/" + name) if par else name
+
+        for _ in range(nops):
+            files = [f for f in m.files() if f not in chain]
+            dirs = [d for d in m.dirs() if d not in chain]
+            want_reuse = rng.random() < 0.6
+            if want_reuse and not [q for q in vacated if q not in m.t and m.parent_ok(q)] and pending:
+                quiet()
+            cands = sorted(q for q in vacated if q not in m.t and m.parent_ok(q))
+            op = None
+            if want_reuse and cands:
+                q = rng.choice(cands)
+                kinds = ["create", "mkdir"] + (["rename"] * 2 if files else []) + \
+                        (["rendir"] * 2 if [d for d in dirs if not (q + "/").startswith(d + "/")] else [])
+                k = rng.choice(kinds)
+                if k == "create":
+                    op = {"side": side, "op": "create", "path": q, "data": self.contents.fresh(side)}
+                elif k == "mkdir":
+                    op = {"side": side, "op": "mkdir", "path": q}
+                elif k == "rename":
+                    op = {"side": side, "op": "rename", "path": rng.choice(files), "to": q}
+                else:
+                    op = {"side": side, "op": "rendir", "to": q,
+                          "path": rng.choice([d for d in dirs if not (q + "/").startswith(d + "/")])}
+                reused += 1
+            else:
+                kinds = ["create"] * 3 + ["mkdir"] * 2
+                if m.files():
+                    kinds += ["write"] * 2
+                if files:
+                    kinds += ["delete"] * 4 + ["rename"] * 3
+                empties = [d for d in dirs if not m.kids(d)]
+                if empties:
+                    kinds += ["rmdir"] * 3
+                if dirs:
+                    kinds += ["rendir"] * 2
+                k = rng.choice(kinds)
+                if k == "create":
+                    op = {"side": side, "op": "create", "path": fresh_path(), "data": self.contents.fresh(side)}
+                elif k == "mkdir":
+                    op = {"side": side, "op": "mkdir", "path": fresh_path()}
+                elif k == "write":
+                    op = {"side": side, "op": "write", "path": rng.choice(m.files()), "data": self.contents.fresh(side)}
+                elif k == "delete":
+                    op = {"side": side, "op": "delete", "path": rng.choice(files)}
+                elif k == "rmdir":
+                    op = {"side": side, "op": "rmdir", "path": rng.choice(empties)}
+                elif k == "rename":
+                    src = rng.choice(files)
+                    par = m.parent(src)
+                    name = self.names.fresh(pfx)
+                    op = {"side": side, "op": "rename", "path": src, "to": (par + "/" + name) if par else name}
+                else:
+                    src = rng.choice(dirs)
+                    par = m.parent(src)
+                    name = self.names.fresh(pfx)
+                    op = {"side": side, "op": "rendir", "path": src, "to": (par + "/" + name) if par else name}
+            if op["op"] == "rendir":
+                quiet()
+            if op["op"] in ("create", "mkdir"):
+                assert m.apply(op), op
+                op["obj"] = m.new_obj(op["path"])
+            else:
+                op["obj"] = m.obj.get(op["path"])
+                assert m.apply(op), op
+            sched.append(["U", op])
+            vacated.discard(op.get("to", op["path"]))       # taken again: vacated anew only by a later op + quiet point
+            if op["op"] in ("delete", "rmdir", "rename", "rendir"):
+                pending.add(op["path"])
+            if op["op"] in ("create", "write", "mkdir"):
+                chain.add(op["path"])
+            elif "to" in op:
+                chain.add(op["to"])
+            if op["op"] == "rendir":
+                quiet()
+            else:
+                gap = self.gap(shape)
+                sched.extend(gap)
+                if ["Q"] in gap:
+                    quiet()
+        return {"family": "REUSE%d" % side, "flavour": flavour, "shape": shape, "base": base, "base_side": base_side,
+                "sched": sched, "expect": m.t, "reused": reused}
+
     def case_disj(self, flavour, shape, nops, weights=None, seek=False):
         """DISJ: both sides change, but each side only touches objects it owns (ownership by top-level entry)."""
         rng = self.rng
